@@ -321,12 +321,76 @@ def doDerive (l : Line) : Option String := do
       | _ => none
   | _ => none
 
+/-! ### round 4: membership in plain sets -/
+
+namespace Term
+
+def scalar? : Term → Option Scalar
+  | .atom "n" => some .pynone
+  | .app "b" [t] => do some (.bool (← bool? t))
+  | .app "i" [.atom s] => do some (.int (← s.toInt?))
+  | .app "r" [t] => do some (.real (← rat? t))
+  | .app "c" [a, b] => do some (.cplx (← rat? a) (← rat? b) false)
+  | .app "cn" [a, b] => do some (.cplx (← rat? a) (← rat? b) true)
+  | .app "s" [] => some (.str "")
+  | .app "s" [.atom s] => some (.str s)
+  | _ => none
+
+partial def val? : Term → Option Val
+  | .app "t" args => do some (.tuple (← args.mapM val?))
+  | t => do some (.sc (← scalar? t))
+
+def rats? (t : Term) : Option (List Rat) := do (← t.list?).mapM rat?
+
+def pleaf? : Term → Option PLeaf
+  | .atom "empty" => some .empty
+  | .atom "universal" => some .universal
+  | .app "strings" [n] => do some (.strings (← nat? n))
+  | .atom "complex" => some .complex
+  | .atom "real" => some .real
+  | .atom "integers" => some .integers
+  | .app "iv" [lo, hi] => do some (.interval (← rats? lo) (← rats? hi))
+  | .app "fs" args => do some (.finite (← args.mapM scalar?))
+  | _ => none
+
+partial def pset? : Term → Option PSet
+  | .app "cart" args => do some (.cartesian (← args.mapM pset?))
+  | .app "union" args => do some (.union (← args.mapM pset?))
+  | .app "inter" args => do some (.inter (← args.mapM pset?))
+  | t => do some (.leaf (← pleaf? t))
+
+end Term
+
+/-- `mem S=<pset> vals=L(v1,…,vn)`: answers `ok <n chars t/f: v_i in S>`. -/
+def doMem (l : Line) : Option String := do
+  let S ← Term.pset? (← Term.parse (← l.get? "S"))
+  let vs ← (← (← Term.parse (← l.get? "vals")).list?).mapM Term.val?
+  some s!"ok {String.ofList (vs.map fun v => outChar (some (S.mem v)))}"
+
+/-- `cset A=<pleaf> B=<pleaf> atol=<rat> same=0|1` (`same`: `B is A`): answers `ok t|f|e` for `A.contains_set(B[, atol])`. -/
+def doCset (l : Line) : Option String := do
+  let A ← Term.pleaf? (← Term.parse (← l.get? "A"))
+  let B ← Term.pleaf? (← Term.parse (← l.get? "B"))
+  let atol ← l.rat? "atol"
+  let same ← l.bool? "same"
+  some s!"ok {outChar (PLeaf.containsSet atol same A B)}"
+
+/-- `call A=<pleaf> dts=L(dtype,…)`: answers `ok <chars t/f/e>` for `A.contains_all(zeros(dtype))`. -/
+def doCall (l : Line) : Option String := do
+  let A ← Term.pleaf? (← Term.parse (← l.get? "A"))
+  let ds ← (← (← Term.parse (← l.get? "dts")).list?).mapM Term.dtype?
+  let T := OdlModel.Gen.DTypes.tables
+  some s!"ok {String.ofList (ds.map fun d => outChar (A.containsAllDtype T d))}"
+
 def handle (l : Line) : Option String :=
   match l.op with
   | "eqall" => doEqAll l
   | "contains" => doContains l
   | "element" => doElement l
   | "derive" => doDerive l
+  | "mem" => doMem l
+  | "cset" => doCset l
+  | "call" => doCall l
   | _ => none
 
 def main : IO Unit := driverLoop handle
